@@ -39,6 +39,12 @@ Theorem C11_lheap_add_string : forall h s off h1, add_string h s = Ok (off, h1) 
 Proof. exact add_string_fits. Qed.
 Print Assumptions C11_lheap_add_string.
 
+(* the allocation-aware model of C07 (Model/RobustAlloc.v local_heap_load) is this reader followed by len() *)
+Theorem C11_lheap_reader_is_c07_reader : forall file addr O L, addr <= MaxInt64 ->
+  fst (local_heap_load file addr O L) = omap blen (load_local_heap file addr O L).
+Proof. exact local_heap_load_agrees. Qed.
+Print Assumptions C11_lheap_reader_is_c07_reader.
+
 Theorem C11_lheap_example :
   load_local_heap (zeros 96 ++ heap_image ex_heap 96 ++ [7; 7]) 96 8 8 = Ok ([100; 115; 0; 103; 0] ++ zeros 11) /\
   get_string ([100; 115; 0; 103; 0] ++ zeros 11) 3 = Ok [103] /\
